@@ -1,1 +1,191 @@
 //! Verification facade (cfg-gated): small family.  See `crate::verif`.
+//!
+//! Public wrappers over the crate-private [`BroadcastingStore`] (header subscriptions)
+//! and [`PeerTracker`].
+
+use std::sync::Arc;
+use std::time::Duration;
+
+use celestia_types::ExtendedHeader;
+use libp2p::swarm::ConnectionId;
+use tokio::sync::{broadcast, watch};
+
+pub use libp2p::PeerId;
+
+use crate::events::EventChannel;
+use crate::node::subscriptions::BroadcastingStore;
+use crate::peer_tracker::{PeerTracker, PeerTrackerInfo};
+use crate::store::{Store, StoreError};
+
+// ------------------------------------------------------------------ BroadcastingStore
+
+/// Wrapper over the `BroadcastingStore` the syncer owns.
+pub struct VBroadcastingStore<S: Store>(BroadcastingStore<S>);
+
+impl<S: Store> VBroadcastingStore<S> {
+    pub fn new(store: Arc<S>) -> Self {
+        VBroadcastingStore(BroadcastingStore::new(store))
+    }
+
+    pub fn clone_inner_store(&self) -> Arc<S> {
+        self.0.clone_inner_store()
+    }
+
+    pub fn init_broadcast(&mut self, head: ExtendedHeader) {
+        self.0.init_broadcast(head)
+    }
+
+    pub fn subscribe(&self) -> broadcast::Receiver<ExtendedHeader> {
+        self.0.subscribe()
+    }
+
+    pub async fn announce_insert(&mut self, range: Vec<ExtendedHeader>) -> Result<(), StoreError> {
+        self.0.announce_insert(range).await
+    }
+
+    pub fn last_sent_height(&self) -> Option<u64> {
+        self.0.verif_last_sent_height()
+    }
+
+    pub fn pending_heights(&self) -> Vec<Vec<u64>> {
+        self.0.verif_pending_heights()
+    }
+}
+
+// ------------------------------------------------------------------ PeerTracker
+
+/// Deterministic peer id (ed25519 key derived from `seed`).
+pub fn peer_id(seed: u8) -> PeerId {
+    let mut bytes = [seed; 32];
+    bytes[0] = 1;
+    libp2p::identity::Keypair::ed25519_from_bytes(bytes)
+        .expect("32 bytes are a valid ed25519 secret")
+        .public()
+        .to_peer_id()
+}
+
+/// Everything the tracker's accessors say about one peer.
+#[derive(Debug, Clone, PartialEq, Eq)]
+pub struct VPeerView {
+    pub id: PeerId,
+    pub connected: bool,
+    pub trusted: bool,
+    pub protected: bool,
+    pub archival: bool,
+    pub full: bool,
+    /// Display form of the connection ids, sorted.
+    pub connections: Vec<String>,
+}
+
+/// Wrapper over `PeerTracker` (it keeps the event channel alive).
+pub struct VPeerTracker {
+    tracker: PeerTracker,
+    _events: EventChannel,
+}
+
+impl VPeerTracker {
+    pub fn new() -> Self {
+        let events = EventChannel::new();
+        VPeerTracker {
+            tracker: PeerTracker::new(events.publisher()),
+            _events: events,
+        }
+    }
+
+    pub fn info(&self) -> PeerTrackerInfo {
+        self.tracker.info()
+    }
+
+    pub fn info_watcher(&self) -> watch::Receiver<PeerTrackerInfo> {
+        self.tracker.info_watcher()
+    }
+
+    pub fn peers(&self) -> Vec<VPeerView> {
+        self.tracker
+            .peers()
+            .map(|peer| {
+                let mut connections: Vec<String> = self
+                    .tracker
+                    .connections(peer.id())
+                    .map(|c| c.to_string())
+                    .collect();
+                connections.sort();
+                VPeerView {
+                    id: *peer.id(),
+                    connected: peer.is_connected(),
+                    trusted: peer.is_trusted(),
+                    protected: peer.is_protected(),
+                    archival: peer.is_archival(),
+                    full: peer.is_full(),
+                    connections,
+                }
+            })
+            .collect()
+    }
+
+    pub fn is_connected(&self, peer_id: &PeerId) -> bool {
+        self.tracker.is_connected(peer_id)
+    }
+
+    pub fn is_protected(&self, peer_id: &PeerId) -> bool {
+        self.tracker.is_protected(peer_id)
+    }
+
+    pub fn is_protected_with_tag(&self, peer_id: &PeerId, tag: u32) -> bool {
+        self.tracker.is_protected_with_tag(peer_id, tag)
+    }
+
+    pub fn all_connections_len(&self) -> usize {
+        self.tracker.all_connections().count()
+    }
+
+    pub fn add_peer_id(&mut self, peer_id: &PeerId) -> bool {
+        self.tracker.add_peer_id(peer_id)
+    }
+
+    pub fn set_trusted(&mut self, peer_id: &PeerId, is_trusted: bool) {
+        self.tracker.set_trusted(peer_id, is_trusted)
+    }
+
+    pub fn protect(&mut self, peer_id: &PeerId, tag: u32) -> bool {
+        self.tracker.protect(peer_id, tag)
+    }
+
+    pub fn unprotect(&mut self, peer_id: &PeerId, tag: u32) -> bool {
+        self.tracker.unprotect(peer_id, tag)
+    }
+
+    pub fn protected_len(&self, tag: u32) -> usize {
+        self.tracker.protected_len(tag)
+    }
+
+    pub fn add_connection(&mut self, peer_id: &PeerId, connection: usize) {
+        self.tracker
+            .add_connection(peer_id, ConnectionId::new_unchecked(connection))
+    }
+
+    pub fn remove_connection(&mut self, peer_id: &PeerId, connection: usize) {
+        self.tracker
+            .remove_connection(peer_id, ConnectionId::new_unchecked(connection))
+    }
+
+    pub fn on_agent_version(&mut self, peer_id: &PeerId, agent_version: &str) {
+        self.tracker.on_agent_version(peer_id, agent_version)
+    }
+
+    pub fn mark_as_archival(&mut self, peer_id: &PeerId) {
+        self.tracker.mark_as_archival(peer_id)
+    }
+
+    pub fn gc(&mut self) {
+        self.tracker.gc()
+    }
+
+    pub fn age_disconnected(&mut self, peer_id: &PeerId, dur: Duration) -> bool {
+        self.tracker.verif_age_disconnected(peer_id, dur)
+    }
+
+    pub fn disconnected_for(&self, peer_id: &PeerId) -> Option<Duration> {
+        self.tracker.verif_disconnected_for(peer_id)
+    }
+}
